@@ -224,8 +224,18 @@ def run(ctx):
         elif form in ("wild", "slice", "flatten", "filter"):
             L = parsed[0]
             if form == "slice":
-                # elements selected by the slice: ask the implementation for (L)<slice> without a right-hand side
-                pend.append((ci, [("@" + parts[2], pv[0])], "slice-elems"))
+                # the elements the slice selects, in order, by Python's own slicing (C07's rule) — not by asking for `@[a:b:c]`, which is
+                # itself a projection and would already have dropped the null elements the right-hand side must still see
+                mm = re.fullmatch(r"\[\s*(-?\d+)?\s*:\s*(-?\d+)?\s*(?::\s*(-?\d+)?\s*)?\]", parts[2].strip())
+                if not mm:
+                    continue
+                a, b, c = (int(x) if x is not None else None for x in mm.groups())
+                if c == 0:
+                    continue       # step 0: the compound fails (checked by correspondence)
+                if not isinstance(L, list):
+                    expect(ctx, cases[ci], vc, "n", f)
+                else:
+                    pend.append((ci, [(parts[1], E.dump(x)) for x in L[slice(a, b, c)]], "map"))
             elif not isinstance(L, list):
                 expect(ctx, cases[ci], vc, "n", f)
             else:
